@@ -373,7 +373,7 @@ func c03ExprStmtString(v string) string {
 }
 
 // c03HasPrefixUpdateExpBase: `++a ** b` / `--a ** b` (UpdateExpression ** ...), a grammatical form that the
-// parser is known to reject (KNOWN_FINDINGS).
+// parser rejected before efda118; counted in its own coverage bucket so that a run shows the shape is still generated.
 func c03HasPrefixUpdateExpBase(e *c03Gx) bool {
 	if e.kind == c03GxBinary && e.op == js.ExpToken && e.kids[0].kind == c03GxPrefix && (e.kids[0].op == js.IncrToken || e.kids[0].op == js.DecrToken) {
 		return true
@@ -526,12 +526,12 @@ func c03MarkPostfix(e *c03Gx, g *c03ExprGen, pos int, nolt []bool) int {
 }
 
 // c03AcceptCheck: src is a grammatical program whose tree must have the String() form want.
-func c03AcceptCheck(rep *Report, src []byte, o int, want string, prefixUpdExp bool, bucket string, nontrivial bool) {
-	c03AcceptCheckKey(rep, "", src, o, want, prefixUpdExp, bucket, nontrivial)
+func c03AcceptCheck(rep *Report, src []byte, o int, want string, bucket string, nontrivial bool) {
+	c03AcceptCheckKey(rep, "", src, o, want, bucket, nontrivial)
 }
 
 // c03AcceptCheckKey: with a fixed violation key (for the minimal instance of a known defect)
-func c03AcceptCheckKey(rep *Report, fixedKey string, src []byte, o int, want string, prefixUpdExp bool, bucket string, nontrivial bool) {
+func c03AcceptCheckKey(rep *Report, fixedKey string, src []byte, o int, want string, bucket string, nontrivial bool) {
 	ast, err, pan := c03ParseJS(src, o)
 	switch {
 	case pan != nil:
@@ -539,8 +539,6 @@ func c03AcceptCheckKey(rep *Report, fixedKey string, src []byte, o int, want str
 	case err != nil:
 		if fixedKey != "" {
 			rep.Violate(fixedKey, fmt.Sprintf("grammatical program rejected: %q: %v", src, c03FirstLine(err)), map[string]interface{}{"src": string(src), "opts": o, "expected": want})
-		} else if prefixUpdExp {
-			rep.Violate("c03-accept:prefix-update-exp-base", fmt.Sprintf("grammatical program rejected: %q (UpdateExpression `++x`/`--x` as the base of **): %v", src, c03FirstLine(err)), map[string]interface{}{"src": string(src), "opts": o, "expected": want})
 		} else {
 			rep.Violate("c03-accept:"+string(src), fmt.Sprintf("grammatical program rejected: %q: %v", src, c03FirstLine(err)), map[string]interface{}{"src": string(src), "opts": o, "expected": want})
 		}
@@ -618,37 +616,44 @@ var c03FixedPrograms = [][2]string{
 // replay of a finding is the shortest program that shows it.
 func c03Fixed(rep *Report) {
 	for o := 0; o < 4; o++ {
-		c03AcceptCheck(rep, []byte("++a**b"), o, "Stmt((++a)**b)", true, "fixed", true)
-		c03AcceptCheck(rep, []byte("a\n;b"), o, "Stmt(a) Stmt(b)", false, "fixed", true)
-		c03AcceptCheck(rep, []byte("{};a"), o, "Stmt({ }) Stmt() Stmt(a)", false, "fixed", true)
+		// UpdateExpression ** ExponentiationExpression (rejected before efda118)
+		c03AcceptCheck(rep, []byte("++a**b"), o, "Stmt((++a)**b)", "fixed", true)
+		c03AcceptCheck(rep, []byte("--a**b**c"), o, "Stmt((--a)**(b**c))", "fixed", true)
+		// the trailing comma of the arrow cover grammar, with its arrow (without: rejected, below; accepted before a1df361)
+		c03AcceptCheck(rep, []byte("(a,)=>a"), o, "Stmt(Params(Binding(a)) => Stmt({ Stmt(return a) }))", "fixed", true)
+		c03AcceptCheck(rep, []byte("(a,b,)=>a"), o, "Stmt(Params(Binding(a), Binding(b)) => Stmt({ Stmt(return a) }))", "fixed", true)
+		c03AcceptCheck(rep, []byte("async(a,)"), o, "Stmt(async(a))", "fixed", true)
+		c03AcceptCheck(rep, []byte("f(a,)"), o, "Stmt(f(a))", "fixed", true)
+		c03AcceptCheck(rep, []byte("a\n;b"), o, "Stmt(a) Stmt(b)", "fixed", true)
+		c03AcceptCheck(rep, []byte("{};a"), o, "Stmt({ }) Stmt() Stmt(a)", "fixed", true)
 		// `async` followed by a line break is not the async modifier: a method / field named async
-		c03AcceptCheckKey(rep, "c03-tree:class-async-newline", []byte("class A{static async\n(a){}}"), o, "Decl(class A Method(static async Params(Binding(a)) Stmt({ })))", false, "fixed", true)
-		c03AcceptCheckKey(rep, "c03-tree:class-async-newline", []byte("class A{async\nm(){}}"), o, "Decl(class A Field(async) Method(m Params() Stmt({ })))", false, "fixed", true)
+		c03AcceptCheckKey(rep, "c03-tree:class-async-newline", []byte("class A{static async\n(a){}}"), o, "Decl(class A Method(static async Params(Binding(a)) Stmt({ })))", "fixed", true)
+		c03AcceptCheckKey(rep, "c03-tree:class-async-newline", []byte("class A{async\nm(){}}"), o, "Decl(class A Field(async) Method(m Params() Stmt({ })))", "fixed", true)
 		// Initializer[+In] / ComputedPropertyName[+In] inside a binding pattern, also in the head of a for statement
-		c03AcceptCheckKey(rep, "c03-accept:in-inside-for-binding-pattern", []byte("for(var[a=b in c]of d);"), o, "Stmt(for Decl(var Binding([ Binding(a = (b in c)) ])) of d Stmt({ }))", false, "fixed", true)
-		c03AcceptCheckKey(rep, "c03-accept:in-inside-for-binding-pattern", []byte("for(let{[a in b]:c}=d;;);"), o, "Stmt(for Decl(let Binding({ [a in b]: Binding(c) } = d)) ; ; Stmt({ }))", false, "fixed", true)
+		c03AcceptCheckKey(rep, "c03-accept:in-inside-for-binding-pattern", []byte("for(var[a=b in c]of d);"), o, "Stmt(for Decl(var Binding([ Binding(a = (b in c)) ])) of d Stmt({ }))", "fixed", true)
+		c03AcceptCheckKey(rep, "c03-accept:in-inside-for-binding-pattern", []byte("for(let{[a in b]:c}=d;;);"), o, "Stmt(for Decl(let Binding({ [a in b]: Binding(c) } = d)) ; ; Stmt({ }))", "fixed", true)
 		// a string property name that is not a canonical number is not that number
-		c03AcceptCheckKey(rep, "c03-tree:string-property-name-as-number", []byte("x={'1.0':1}"), o, "Stmt(x={'1.0': 1})", false, "fixed", true)
-		c03AcceptCheckKey(rep, "c03-tree:string-property-name-as-number", []byte("x={'.5':1}"), o, "Stmt(x={'.5': 1})", false, "fixed", true)
-		c03AcceptCheck(rep, []byte("x={'s':1,'12':2,'a b':3}"), o, "Stmt(x={s: 1, 12: 2, 'a b': 3})", false, "fixed", true)
-		c03AcceptCheck(rep, []byte("a+b*c"), o, "Stmt(a+(b*c))", false, "fixed", true)
-		c03AcceptCheck(rep, []byte("a<<b+c"), o, "Stmt(a<<(b+c))", false, "fixed", true)
-		c03AcceptCheck(rep, []byte("(a??b)||c"), o, "Stmt(((a??b))||c)", false, "fixed", true)
-		c03AcceptCheck(rep, []byte("(-a)**b"), o, "Stmt(((-a))**b)", false, "fixed", true)
+		c03AcceptCheckKey(rep, "c03-tree:string-property-name-as-number", []byte("x={'1.0':1}"), o, "Stmt(x={'1.0': 1})", "fixed", true)
+		c03AcceptCheckKey(rep, "c03-tree:string-property-name-as-number", []byte("x={'.5':1}"), o, "Stmt(x={'.5': 1})", "fixed", true)
+		c03AcceptCheck(rep, []byte("x={'s':1,'12':2,'a b':3}"), o, "Stmt(x={s: 1, 12: 2, 'a b': 3})", "fixed", true)
+		c03AcceptCheck(rep, []byte("a+b*c"), o, "Stmt(a+(b*c))", "fixed", true)
+		c03AcceptCheck(rep, []byte("a<<b+c"), o, "Stmt(a<<(b+c))", "fixed", true)
+		c03AcceptCheck(rep, []byte("(a??b)||c"), o, "Stmt(((a??b))||c)", "fixed", true)
+		c03AcceptCheck(rep, []byte("(-a)**b"), o, "Stmt(((-a))**b)", "fixed", true)
 	}
 	for _, p := range c03FixedPrograms {
 		src := strings.ReplaceAll(p[0], "\\n", "\n")
 		for o := 0; o < 4; o++ {
-			c03AcceptCheck(rep, []byte(src), o, p[1], false, "fixed-programs", true)
+			c03AcceptCheck(rep, []byte(src), o, p[1], "fixed-programs", true)
 		}
 	}
 	rejectCheckFixed := func(kind, s string) { c03RejectCheck(rep, kind, []byte(s)) }
 	rejectCheckFixed("var-then-let-in-block", "{var a;let a}")
 	rejectCheckFixed("var-then-let-in-block", "{function a(){}let a}")
 	rejectCheckFixed("private-name-twice", "class A{#a;#a}")
-	for _, s := range []string{"let a;let a", "let a;{var a}", "function f(a){let a}", "(a,)", "-a**b", "a??b||c", "a||b??c", "a&&b??c", "a??b&&c", "a+b=c", "(a", "a)", "a[b", "a]", "f(a", "{a"} {
+	for _, s := range []string{"let a;let a", "let a;{var a}", "function f(a){let a}", "(a,)", "x=(a,b,)", "f((a,))", "(a,\n)", "(a,)\n=>a", "-a**b", "-(++a)**b", "a??b||c", "a||b??c", "a&&b??c", "a??b&&c", "a+b=c", "(a", "a)", "a[b", "a]", "f(a", "{a"} {
 		kind := "fixed"
-		if s == "(a,)" {
+		if strings.Contains(s, ",)") || strings.Contains(s, ",\n)") {
 			kind = "paren-trailing-comma"
 		}
 		c03RejectCheck(rep, kind, []byte(s))
@@ -675,7 +680,7 @@ func c03Expressions(r *Rng, tier string, rep *Report) {
 		if c03HasPrefixUpdateExpBase(e) {
 			bucket = "expr-prefix-update-exp"
 		}
-		c03AcceptCheck(rep, src, o, want, c03HasPrefixUpdateExpBase(e), bucket, len(ts) >= 3)
+		c03AcceptCheck(rep, src, o, want, bucket, len(ts) >= 3)
 	}
 }
 
@@ -707,7 +712,7 @@ func c03RejectCheck(rep *Report, kind string, src []byte) {
 			rep.Violate("c03-panic:"+string(src), fmt.Sprintf("js.Parse panics on %q: %v", src, pan), map[string]interface{}{"src": string(src), "opts": o})
 		} else if err == nil {
 			key := "c03-reject:" + kind + ":" + string(src)
-			if kind == "paren-trailing-comma" || kind == "private-name-twice" || kind == "var-then-let-in-block" {
+			if kind == "private-name-twice" || kind == "var-then-let-in-block" {
 				key = "c03-reject:" + kind // one stable key: every instance is the same defect
 			}
 			rep.Violate(key, fmt.Sprintf("ill-formed program accepted (%s): %q parsed as %s", kind, src, c03AstString(ast)), map[string]interface{}{"src": string(src), "opts": o})
@@ -739,16 +744,31 @@ func c03Forbidden(r *Rng, tier string, rep *Report) {
 		reject("assign-to-binary", c03SpellNoASI(r, c03Cat(operand(c03NtUnary), bo, operand(c03NtUnary), ao, operand(c03NtAssignment))))
 		reject("assign-to-unary", c03SpellNoASI(r, c03Cat(u, operand(c03NtUnary), ao, operand(c03NtAssignment))))
 	}
-	// `( Expression , )` is not a ParenthesizedExpression (a trailing comma is only allowed in arrow parameters)
-	for i := 0; i < 20; i++ {
-		inner := c03Cat(c03TkLP, operand(c03NtAssignment), c03TkComma, c03TkRP)
-		switch i % 3 {
+	// `( Expression , )` is not a ParenthesizedExpression (a trailing comma is only allowed in arrow parameters,
+	// i.e. when `=>` follows on the same line); accepted as `( Expression )` before a1df361
+	nt := 60
+	if tier == "thorough" {
+		nt = 3000
+	}
+	for i := 0; i < nt; i++ {
+		list := operand(c03NtAssignment)
+		for k := r.Intn(3); k > 0; k-- {
+			list = c03Cat(list, c03TkComma, operand(c03NtAssignment))
+		}
+		inner := c03Cat(c03TkLP, list, c03TkComma, c03TkRP)
+		switch i % 6 {
 		case 0:
 			reject("paren-trailing-comma", c03SpellNoASI(r, inner))
 		case 1:
 			reject("paren-trailing-comma", c03SpellNoASI(r, c03Cat(c03TkA, js.EqToken, inner)))
-		default:
+		case 2:
 			reject("paren-trailing-comma", c03SpellNoASI(r, c03Cat(inner, js.AddToken, c03TkB)))
+		case 3:
+			reject("paren-trailing-comma", c03SpellNoASI(r, c03Cat(c03TkA, c03TkLP, inner, c03TkRP)))
+		case 4:
+			reject("paren-trailing-comma", c03SpellNoASI(r, c03Cat(c03TkLP, inner, c03TkRP)))
+		default:
+			reject("paren-trailing-comma", c03SpellNoASI(r, c03Cat(inner, js.DotToken, c03TkB)))
 		}
 	}
 	// all operators: a+b=c for every binary and every assignment operator
@@ -806,10 +826,8 @@ func c03Programs(r *Rng, tier string, rep *Report) {
 		var ts []c03Jtok
 		var nolt []bool
 		var want []string
-		pue := false
 		for s := 0; s < k; s++ {
 			e := g.gen(c03NtExpression, 1+r.Intn(3), true)
-			pue = pue || c03HasPrefixUpdateExpBase(e)
 			st := g.toks(e)
 			// the next statement must not continue the previous expression: keep to starts that cannot
 			first := st[0].ty
@@ -851,6 +869,6 @@ func c03Programs(r *Rng, tier string, rep *Report) {
 		}
 		src := b.Bytes()
 		o := r.Intn(4)
-		c03AcceptCheck(rep, src, o, strings.Join(want, " "), pue, "expr-stmts", true)
+		c03AcceptCheck(rep, src, o, strings.Join(want, " "), "expr-stmts", true)
 	}
 }
